@@ -323,13 +323,14 @@ def restoreEntry (o : Opts) (w : WD) (e : Entry) : WD × St :=
       match w.fs.lookup e.path with
       | some n =>
         if n.kind != .dir || !w.fs.reach o.root e.path then (w, .failed) else
-        -- EEXIST, "a dir in the way of a dir": only the mode is deferred;
-        -- TODO_TIMES stays in a->todo and is applied by finish_entry at once
-        let fs1 := if o.time then w.fs.update n.ino fun x => { x with mtime := some e.mtime } else w.fs
-        let fx := if amode != n.mode && o.perm then
-            [{ path := e.path, mode := amode, mtime := e.mtime, doMode := true, doTimes := false : Fixup }]
+        -- EEXIST, "a dir in the way of a dir": nothing is created; the mode is
+        -- deferred when it differs and PERM was asked for, the times are deferred
+        -- as for a new directory (set_mode does nothing for directories)
+        let doMode := amode != n.mode && o.perm
+        let fx := if doMode || o.time then
+            [{ path := e.path, mode := amode, mtime := e.mtime, doMode := doMode, doTimes := o.time : Fixup }]
           else []
-        ({ w with fs := fs1, fixups := fx ++ w.fixups }, .ok)
+        ({ w with fixups := fx ++ w.fixups }, .ok)
       | none =>
         if !w.fs.canCreate o.root e.path then (w, .failed) else
         let m := andNot (amode &&& 0o777) o.umask
